@@ -12,6 +12,8 @@
    Trace record: cm (T rows of C costs, 999 = +inf), labels, blank, outcome ("ok" | "error" = ValueError | other),
    path (symbol per frame), seq (character number per frame, 0 on blank frames), pos (1-based frame per character). *)
 EXTENDS ForcedAlign, TraceKit
+CONSTANT SeqClause     \* TRUE: also judge the return_seq_positions variant (clause 7).  It is not named by the statement, so the
+                       \* verdict pass runs with FALSE and a mismatch found with TRUE is reported as MODEL-DRIFT only.
 VARIABLES tid, verdict
 
 Tr == Traces[tid]
@@ -31,8 +33,8 @@ Judge ==
     ELSE IF ~IsSeqOver(Tr.path, T, Syms) THEN 4                         \* not one symbol per frame
     ELSE IF Collapse(Tr.path) # labels THEN 5                           \* does not collapse to the labels
     ELSE IF PathCost(Tr.path) # BestCost THEN 6                         \* not of minimal total cost
-    ELSE IF ~IsSeqOver(Tr.seq, T, 0..L) THEN 7
-    ELSE IF ~(SeqExplainedBy(Tr.path) \/ \E a \in OptValid : SeqExplainedBy(a)) THEN 7   \* character numbering is not that of an optimal alignment
+    ELSE IF SeqClause /\ ~IsSeqOver(Tr.seq, T, 0..L) THEN 7
+    ELSE IF SeqClause /\ ~(SeqExplainedBy(Tr.path) \/ \E a \in OptValid : SeqExplainedBy(a)) THEN 7   \* character numbering is not that of an optimal alignment
     ELSE IF ~IsSeqOver(Tr.pos, L, 1..T) THEN 8
     ELSE IF ~StrictlyIncreasing(Tr.pos) THEN 8                          \* positions not strictly increasing
     ELSE IF ~(PosExplainedBy(Tr.path) \/ \E a \in OptValid : PosExplainedBy(a)) THEN 9    \* not the most confident frame of the character
